@@ -127,6 +127,12 @@ pub struct Case {
     pub cfg: TeCfg,
     pub scale: f32,
     pub history: Vec<TOp>,
+    /// None: the mixed sweep (all entry points per query). Some(e): first-touch pass — a fresh
+    /// engine, and every query goes through entry point `e` only ("sync" | "batch" | "timed"),
+    /// k = 1000 first. Searches are not neutral (a search that meets a stale recent-write mirror
+    /// scrubs it), so in the mixed sweep the first entry point would always clean up for the rest.
+    #[serde(default)]
+    pub pure: Option<String>,
 }
 
 fn alphabet(dim: usize, scale: f32) -> Vec<TOp> {
@@ -144,10 +150,68 @@ fn alphabet(dim: usize, scale: f32) -> Vec<TOp> {
     v.push(TOp::Del { id: 1 });
     v.push(TOp::Del { id: 2 });
     v.push(TOp::Flush { force: true });
+    // bulk loads bypass the recent-write tier: an overwrite that leaves an older mirror behind,
+    // and a new document that has no mirror at all
+    v.push(TOp::BulkLoad { docs: vec![(1, pick[1].clone(), Meta::new())] });
+    v.push(TOp::BulkLoad { docs: vec![(2, pick[0].clone(), Meta::new()), (3, pick[2].clone(), Meta::new())] });
     v
 }
 
+fn sweep_pure(te: &Te, rt: &tokio::runtime::Runtime, model: &BTreeMap<u64, Vec<f32>>, case: &Case, st: &mut Stats, entry: &str) {
+    let metric = te.cfg.metric();
+    let hot_ids: BTreeSet<u64> = te.engine.hot_tier().snapshot_doc_ids().into_iter().collect();
+    let sc = SearchCheck { metric, model, hot_ids: &hot_ids };
+    let queries = lattice(te.cfg.dim, 1.0);
+    for &k in &[1000usize, 1, 2] {
+        for (qidx, q) in queries.iter().enumerate() {
+            st.searches += 1;
+            let out: Result<Vec<(Vec<f32>, Vec<SearchResult>, String)>, String> = match entry {
+                "sync" => te.engine.knn_search_with_ef_detailed(q, k, None).map(|(r, p)| vec![(q.clone(), r, format!("{p:?}"))]).map_err(|e| format!("{e:#}")),
+                "batch" => {
+                    let q2 = queries[(qidx + 1) % queries.len()].clone();
+                    te.engine
+                        .knn_search_batch_with_ef_detailed(&[q.clone(), q2.clone()], k, None)
+                        .map(|all| all.into_iter().enumerate().map(|(i, (r, p))| (if i == 0 { q.clone() } else { q2.clone() }, r, format!("{p:?}"))).collect())
+                        .map_err(|e| format!("{e:#}"))
+                }
+                _ => rt.block_on(te.engine.knn_search_with_timeouts_with_ef(q, k, None)).map(|(r, p)| vec![(q.clone(), r, format!("{p:?}"))]).map_err(|e| format!("{e:#}")),
+            };
+            let name = match entry {
+                "sync" => "knn_search",
+                "batch" => "knn_search_batch",
+                _ => "knn_search_with_timeouts",
+            };
+            match out {
+                Ok(list) => {
+                    for (qq, res, path) in list {
+                        st.paths.insert(format!("first-touch:{entry}:{path}"));
+                        st.results += res.len() as u64;
+                        if !res.is_empty() {
+                            st.nonempty += 1;
+                        }
+                        let degraded = path == "Degraded";
+                        if let Err((sym, d)) = check_results(&sc, &qq, k, &res, degraded) {
+                            st.viol.push((
+                                format!("C06|{name}[{path}]|{sym}|{}", vcore::metric_name(metric)),
+                                json!({"engine":"seqmc","check":"C06","case":case,"query":qq,"k":k,"ef":null,"entry":name,"detail":d}),
+                            ));
+                            return;
+                        }
+                    }
+                }
+                Err(e) => {
+                    st.viol.push((format!("C06|{name}|error|{}", vcore::metric_name(metric)), json!({"engine":"seqmc","check":"C06","case":case,"query":q,"k":k,"entry":name,"detail":e})));
+                    return;
+                }
+            }
+        }
+    }
+}
+
 fn sweep(te: &Te, rt: &tokio::runtime::Runtime, model: &BTreeMap<u64, Vec<f32>>, case: &Case, st: &mut Stats, thorough: bool) {
+    if let Some(e) = &case.pure {
+        return sweep_pure(te, rt, model, case, st, e);
+    }
     let metric = te.cfg.metric();
     let dim = te.cfg.dim;
     let hot_ids: BTreeSet<u64> = te.engine.hot_tier().snapshot_doc_ids().into_iter().collect();
@@ -275,6 +339,15 @@ pub fn run_case(case: &Case, rt: &tokio::runtime::Runtime, st: &mut Stats, thoro
             TOp::Flush { force } => {
                 let _ = te.engine.flush_hot_tier(*force);
             }
+            TOp::BulkLoad { docs } => {
+                let d: Vec<(u64, Vec<f32>, std::collections::HashMap<String, String>)> = docs.iter().map(|(id, v, m)| (*id, v.clone(), vcore::to_hash(m))).collect();
+                if te.engine.bulk_load_cold_tier(d).is_err() {
+                    return;
+                }
+                for (id, v, _) in docs {
+                    model.insert(*id, v.clone());
+                }
+            }
             _ => {}
         }
         if sweep_every_step || i + 1 == n {
@@ -335,25 +408,38 @@ pub fn run(tier: &str, replay: Option<&str>) -> i32 {
     }
     let thorough = tier == "thorough";
     let depth: usize = std::env::var("C06_DEPTH").ok().and_then(|s| s.parse().ok()).unwrap_or(if thorough { 4 } else { 3 });
-    let mut jobs: Vec<(String, usize, f32)> = Vec::new();
+    // one job per (metric, dim, scale, first letter) + one per (metric, dim, scale) for the long
+    // tombstone histories (first = usize::MAX)
+    let nletters = alphabet(3, 1.0).len();
+    let mut jobs: Vec<(String, usize, f32, usize)> = Vec::new();
     for metric in ["cosine", "euclidean", "inner_product"] {
         for dim in dims(tier) {
             for scale in [1.0f32, 3.0] {
-                jobs.push((metric.to_string(), dim, scale));
+                jobs.push((metric.to_string(), dim, scale, usize::MAX));
+                for first in 0..nletters {
+                    jobs.push((metric.to_string(), dim, scale, first));
+                }
             }
         }
     }
-    let results = vcore::par::par_map(&jobs, |_i, (metric, dim, scale)| {
+    let results = vcore::par::par_map(&jobs, |_i, (metric, dim, scale, first)| {
         let rt = tokio::runtime::Builder::new_multi_thread().worker_threads(1).max_blocking_threads(4).enable_all().build().unwrap();
         let mut st = Stats::default();
         let cfg = cfg_for(metric, *dim, 2, 4, 64);
         let alpha = alphabet(*dim, *scale);
-        for seq in sequences(alpha.len(), depth, &[]) {
-            let case = Case { cfg: cfg.clone(), scale: *scale, history: seq.iter().map(|&i| alpha[i].clone()).collect() };
-            run_case(&case, &rt, &mut st, thorough, false);
+        if *first != usize::MAX {
+            for seq in sequences(alpha.len(), depth, &[*first]) {
+                let mut case = Case { cfg: cfg.clone(), scale: *scale, history: seq.iter().map(|&i| alpha[i].clone()).collect(), pure: None };
+                run_case(&case, &rt, &mut st, thorough, false);
+                for e in ["sync", "batch", "timed"] {
+                    case.pure = Some(e.to_string());
+                    run_case(&case, &rt, &mut st, thorough, false);
+                }
+            }
+            return st;
         }
         // tombstone-heavy history: sweep after every step from the first delete on
-        let tcase = Case { cfg: cfg_for(metric, *dim, 64, 128, 48), scale: *scale, history: tombstone_history(*dim, *scale) };
+        let tcase = Case { cfg: cfg_for(metric, *dim, 64, 128, 48), scale: *scale, history: tombstone_history(*dim, *scale), pure: None };
         run_case(&tcase, &rt, &mut st, thorough, false);
         st.tombstone_max_pct = 95;
         // ... and continue it past the index capacity so tombstone compaction runs
@@ -362,7 +448,7 @@ pub fn run(tier: &str, replay: Option<&str>) -> i32 {
         for id in 100..112u64 {
             h2.push(TOp::Ins { id, v: lat[(id as usize) % lat.len()].clone(), m: Meta::new() });
         }
-        let tcase2 = Case { cfg: cfg_for(metric, *dim, 64, 128, 48), scale: *scale, history: h2 };
+        let tcase2 = Case { cfg: cfg_for(metric, *dim, 64, 128, 48), scale: *scale, history: h2, pure: None };
         run_case(&tcase2, &rt, &mut st, thorough, false);
         st
     });
@@ -385,7 +471,7 @@ pub fn run(tier: &str, replay: Option<&str>) -> i32 {
     ev.set("traces_validated_against_impl", tot.histories);
     ev.set("evaluations", tot.searches);
     ev.set("distinct_nontrivial", tot.nonempty);
-    ev.set("rule", format!("for every metric x dimension {:?} x input scale {{1 (unit), 3 (un-normalised)}}: all histories of length {depth} over a 10-letter alphabet (inserts/overwrites of ids 1-3 with lattice vectors, deletes, forced drain) plus a 40-insert/38-delete history (95 % tombstones) and its continuation past the index capacity (tombstone compaction); after each history every lattice query x k x ef {{default,1,10000}} is issued through knn_search, knn_search_batch, HnswBackend::knn_search and knn_search_with_timeouts; oracle = f64 brute force: <=k, distinct, live, true distance within 1e-4*max(1,d), sorted, and every live document still in the recent-write tier that is strictly closer than the k-th result is present; non-trivial = searches with a non-empty answer", dims(tier)));
+    ev.set("rule", format!("for every metric x dimension {:?} x input scale {{1 (unit), 3 (un-normalised)}}: all histories of length {depth} over a 12-letter alphabet (inserts/overwrites of ids 1-3 with lattice vectors, deletes, forced drain, bulk loads that overwrite / add documents behind the recent-write tier) plus a 40-insert/38-delete history (95 % tombstones) and its continuation past the index capacity (tombstone compaction); after each history every lattice query x k x ef {{default,1,10000}} is issued through knn_search, knn_search_batch, HnswBackend::knn_search and knn_search_with_timeouts, and — because a search that meets a stale mirror scrubs it — each history is replayed on three more fresh engines whose queries (k = 1000 first) go through ONE entry point only (first-touch pass); oracle = f64 brute force: <=k, distinct, live, true distance within 1e-4*max(1,d), sorted, and every live document still in the recent-write tier that is strictly closer than the k-th result is present; non-trivial = searches with a non-empty answer", dims(tier)));
     ev.set("samples", json!([{"metric":"cosine","dim":dims(tier)[1],"history":alphabet(dims(tier)[1],1.0).iter().take(3).map(|o| o.short()).collect::<Vec<_>>(),"query":lattice(dims(tier)[1],1.0)[0]}]));
     ev.set("exhaustive", true);
     ev.set("result_rows_checked", tot.results);
